@@ -55,7 +55,13 @@ package util
 //@   props C13
 //@   model int
 //@   ensures {value-or-error} (err == nil) <==> (desc != nil)
+// Acceptance (the deserialising half of the round trip): whatever JSON object encoding/json produced, if its "type"
+// member is one of the four SDP type names and its "sdp" member is a string - ANY string, the empty one included -
+// the description is accepted with exactly that text.
+//@   ensures {accepts-every-well-typed-object} jsonOK && has(parsed, "type") && has(parsed, "sdp") && tagis(parsed["type"], string) && tagis(parsed["sdp"], string) && (unbox(parsed["type"], string) == "offer" || unbox(parsed["type"], string) == "pranswer" || unbox(parsed["type"], string) == "answer" || unbox(parsed["type"], string) == "rollback") ==> err == nil && desc.SDP == unbox(parsed["sdp"], string)
+//@   after call Unmarshal ghost jsonOK = ret0 == nil
 //
+//@ ghost var jsonOK bool
 //@ func SerializeSessionDescription(desc *webrtc.SessionDescription) (s string, err error)
 //@   props C13
 //@   model int
